@@ -45,7 +45,7 @@ KERNELS = {
 NAT_KERNELS = {"_check_regular_chunks", "to_chunksize"}
 
 GEN_HEADER = r"""
-From CubedV Require Import Model.Util Model.Memory Model.Rechunk Model.Regular Model.Dag Model.FuseGuard Model.Admission Model.Resume Model.Events Model.SpecCfg Proofs.SpecCfgProofs Proofs.FuseGuardProofs Proofs.AdmissionProofs Proofs.ResumeProofs Proofs.EventsProofs.
+From CubedV Require Import Model.Util Model.Memory Model.Rechunk Model.Regular Model.Dag Model.FuseGuard Model.Admission Model.Resume Model.Events Model.SpecCfg Model.Geometry Proofs.GeometryProofs Proofs.SpecCfgProofs Proofs.FuseGuardProofs Proofs.AdmissionProofs Proofs.ResumeProofs Proofs.EventsProofs.
 From Gen Require Import Gen.
 Local Open Scope Z_scope.
 
@@ -154,7 +154,8 @@ FUSE_FIELDS = ["projected_mem", "allowed_mem", "reserved_mem", "num_tasks"]
 # the admission test (cubed/core/plan.py): strictly shaped functions, see translate_admission
 ADMISSION_KERNELS = ["Plan._find_ops_exceeding_memory", "FinalizedPlan.validate", "admission.wiring", "already_computed", "resume.wiring",
                      "skip_node", "visit_nodes", "visit_node_generations",
-                     "Spec.__eq__", "check_array_specs"]
+                     "Spec.__eq__", "check_array_specs",
+                     "_cumsum", "get_item", "ChunkKeys.__iter__", "general_blockwise.num_tasks"]
 
 EQUIV.update({
     "is_fuse_candidate": r"""
@@ -246,6 +247,49 @@ Corollary source_mixed_specs_rejected : forall specs,
   end.
 Proof. intros specs. rewrite gen_check_array_specs_equiv. apply check_array_specs_spec. Qed.
 """,
+    "_cumsum": r"""
+Lemma gen_cumsum_from : forall seq acc, Geometry.starts_from acc seq = acc :: map (fun s => acc + s)%nat (gen__cumsum_tail seq).
+Proof.
+  induction seq as [|c seq IH]; intros acc; cbn [Geometry.starts_from gen__cumsum_tail map]; [reflexivity|].
+  f_equal. rewrite IH. f_equal. rewrite map_map. apply map_ext. intros. lia.
+Qed.
+Theorem gen__cumsum_equiv : forall seq, gen__cumsum seq true = Geometry.starts seq.
+Proof.
+  intros. unfold gen__cumsum, Geometry.starts. rewrite gen_cumsum_from. f_equal.
+  rewrite <- (map_id (gen__cumsum_tail seq)) at 1. apply map_ext. intros. lia.
+Qed.
+""",
+    "get_item": r"""
+Theorem gen_get_item_equiv : forall chunks idx, gen_get_item chunks idx = Geometry.get_item chunks idx.
+Proof.
+  intros chunks. unfold gen_get_item, Geometry.get_item. cbv zeta.
+  induction chunks as [|c chunks IH]; intros [|i idx]; cbn [map combine map2]; try reflexivity.
+  rewrite IH. unfold Geometry.region1. cbn [fst snd]. rewrite gen__cumsum_equiv, Nat.add_1_r. reflexivity.
+Qed.
+(* every element of an array lies in the region the source's get_item gives to exactly one block *)
+Corollary source_regions_partition : forall chunks x,
+  Forall2 (fun c xi => xi < sumn c)%nat chunks x ->
+  exists b, In b (Geometry.blocks (map (@length nat) chunks))
+    /\ Geometry.in_region (gen_get_item chunks b) x = true
+    /\ forall b', In b' (Geometry.blocks (map (@length nat) chunks)) ->
+         Geometry.in_region (gen_get_item chunks b') x = true -> b' = b.
+Proof. intros chunks x H. setoid_rewrite gen_get_item_equiv. now apply regions_partition. Qed.
+""",
+    "ChunkKeys.__iter__": r"""
+Theorem gen_ChunkKeys_iter_equiv : forall chunks, gen_ChunkKeys_iter chunks = Geometry.blocks (map (@length nat) chunks).
+Proof. intros. reflexivity. Qed.
+""",
+    "general_blockwise.num_tasks": r"""
+Theorem gen_general_blockwise_num_tasks_equiv : forall chunks, gen_general_blockwise_num_tasks chunks = Geometry.num_tasks chunks.
+Proof. intros. reflexivity. Qed.
+(* the number of tasks the source declares for an ordinary blockwise operation is the length of the task list it iterates over,
+   which lists every block exactly once *)
+Corollary source_num_tasks_is_mappable_length : forall chunks,
+  length (gen_ChunkKeys_iter chunks) = gen_general_blockwise_num_tasks chunks /\ NoDup (gen_ChunkKeys_iter chunks).
+Proof.
+  intros. rewrite gen_ChunkKeys_iter_equiv, gen_general_blockwise_num_tasks_equiv. split; [apply mappable_length|apply blocks_nodup].
+Qed.
+""",
     "skip_node": r"""
 Theorem gen_skip_node_spec : forall hp c, gen_skip_node hp c = negb hp || c.
 Proof. intros [|] [|]; reflexivity. Qed.
@@ -271,7 +315,7 @@ Corollary source_par_barrier : forall nodes edges gens is_op skip (ntasks : nat 
 Proof. intros until inter. rewrite gen_visit_node_generations_equiv. apply par_barrier. Qed.
 """,
 })
-DEPS.update({"check_array_specs": ["Spec.__eq__"]})
+DEPS.update({"check_array_specs": ["Spec.__eq__"], "get_item": ["_cumsum"], "general_blockwise.num_tasks": ["ChunkKeys.__iter__"]})
 DEPS.update({"FinalizedPlan.validate": ["Plan._find_ops_exceeding_memory"], "admission.wiring": [], "resume.wiring": []})
 DEPS.update({"can_fuse_primitive_ops": ["is_fuse_candidate"],
              "can_fuse_multiple_primitive_ops": ["MemoryModeller.allocate", "MemoryModeller.free", "peak_projected_mem", "is_fuse_candidate"],
@@ -611,6 +655,52 @@ def translate_admission(name, repo):
         if not ex or U(ex[0]) != "self.validate()":
             raise TranslationError("FinalizedPlan.execute must call self.validate() first")
         return "(* admission.wiring: structural obligations on _finalize / FinalizedPlan.__init__ / execute hold *)\n"
+    if name in ("_cumsum", "get_item"):
+        utree = ast.parse((Path(repo) / "cubed/utils.py").read_text())
+        fn = next((n for n in utree.body if isinstance(n, ast.FunctionDef) and n.name == name), None)
+        if fn is None:
+            raise TranslationError(f"{name} not found in cubed/utils.py")
+        b = _nodoc(fn.body)
+        if name == "_cumsum":
+            if not (len(b) == 1 and isinstance(b[0], ast.If) and U(b[0].test) == "initial_zero" and [U(x) for x in b[0].body] == ["return tuple(accumulate(seq, add, initial=0))"]
+                    and [U(x) for x in b[0].orelse] == ["return tuple(accumulate(seq, add))"] and [a.arg for a in fn.args.args] == ["seq", "initial_zero"]):
+                raise TranslationError("_cumsum: shape")
+            # itertools.accumulate(seq, add): running sums; with initial=0 the sums are preceded by 0
+            return ("Fixpoint gen__cumsum_tail (seq : list nat) : list nat :=\n  (match seq with [] => [] | c :: r => c :: map (fun s => c + s) (gen__cumsum_tail r) end)%nat.\n"
+                    "Definition gen__cumsum (seq : list nat) (initial_zero : bool) : list nat :=\n  (if initial_zero then 0 :: gen__cumsum_tail seq else gen__cumsum_tail seq)%nat.\n")
+        if not ([a.arg for a in fn.args.args] == ["chunks", "idx"] and [U(x) for x in b] == [
+                "starts = tuple((_cumsum(c, initial_zero=True) for c in chunks))",
+                "loc = tuple(((start[i], start[i + 1]) for i, start in zip(idx, starts)))",
+                "return tuple((slice(*s, None) for s in loc))"]):
+            raise TranslationError("get_item: shape")
+        return ("Definition gen_get_item (chunks : list (list nat)) (idx : list nat) : list (nat * nat) :=\n"
+                "  let starts := map (fun c => gen__cumsum c true) chunks in\n"
+                "  let loc := map2 (fun i start => (nth i start 0, nth (i + 1) start 0))%nat idx starts in\n  loc.\n")
+    if name in ("ChunkKeys.__iter__", "general_blockwise.num_tasks"):
+        btree = ast.parse((Path(repo) / "cubed/primitive/blockwise.py").read_text())
+        if name == "ChunkKeys.__iter__":
+            fn = _method(btree, "ChunkKeys", "__iter__")
+            ini = _method(btree, "ChunkKeys", "__init__")
+            if ([U(x) for x in _nodoc(fn.body)] != ["return map(list, itertools.product(*[range(len(c)) for c in self.chunks_normal]))"]
+                    or [U(x) for x in _nodoc(ini.body)] != ["self.chunks_normal = chunks_normal"]):
+                raise TranslationError("ChunkKeys: shape")
+            return "Definition gen_ChunkKeys_iter (chunks_normal : list (list nat)) : list (list nat) :=\n  Geometry.blocks (map (fun c => length c) chunks_normal).\n"
+        fn = next((n for n in btree.body if isinstance(n, ast.FunctionDef) and n.name == "general_blockwise"), None)
+        if fn is None:
+            raise TranslationError("general_blockwise not found")
+        src = [U(x) for x in fn.body]
+        if ("mappable = output_blocks if output_blocks is not None else ChunkKeys(chunks_normal)" not in src
+                or "if num_tasks is None:\n    num_tasks = math.prod((len(c) for c in chunks_normal))" not in src):
+            raise TranslationError("general_blockwise: mappable / num_tasks statements")
+        i_m = src.index("mappable = output_blocks if output_blocks is not None else ChunkKeys(chunks_normal)")
+        i_n = src.index("if num_tasks is None:\n    num_tasks = math.prod((len(c) for c in chunks_normal))")
+        stores = [n for s_ in fn.body[min(i_m, i_n):] for n in ast.walk(s_) if isinstance(n, ast.Name) and isinstance(n.ctx, ast.Store) and n.id in ("num_tasks", "mappable", "chunks_normal")]
+        ret = fn.body[-1]
+        kws = {k.arg: U(k.value) for k in ret.value.keywords} if isinstance(ret, ast.Return) and isinstance(ret.value, ast.Call) else {}
+        pipe = [x for x in src if x.startswith("pipeline = CubedPipeline(")]
+        if len(stores) != 2 or kws.get("num_tasks") != "num_tasks" or kws.get("pipeline") != "pipeline" or len(pipe) != 1 or "mappable" not in pipe[0]:
+            raise TranslationError("general_blockwise: num_tasks / mappable must reach PrimitiveOperation and CubedPipeline unchanged")
+        return "Definition gen_general_blockwise_num_tasks (chunks_normal : list (list nat)) : nat :=\n  prodn (map (fun c => length c) chunks_normal).\n"
     if name == "Spec.__eq__":
         stree = ast.parse((Path(repo) / "cubed/spec.py").read_text())
         fn = _method(stree, "Spec", "__eq__")
@@ -1026,7 +1116,7 @@ def check(names=None, repo=None, tag="all"):
     except Exception as e:
         return False, f"translation failed: {type(e).__name__}: {e}", ""
     text = ("(* GENERATED on every run from /repo by harness/translate.py - do not edit *)\n"
-            "From CubedV Require Import Model.Util Model.Memory Model.Rechunk Model.Regular Model.Dag Model.FuseGuard Model.Admission Model.Resume Model.SpecCfg.\nLocal Open Scope Z_scope.\n\n" + "\n".join(defs))
+            "From CubedV Require Import Model.Util Model.Memory Model.Rechunk Model.Regular Model.Dag Model.FuseGuard Model.Admission Model.Resume Model.SpecCfg Model.Geometry.\nLocal Open Scope Z_scope.\n\n" + "\n".join(defs))
     (gen / "Gen.v").write_text(text)
     (gen / "GenEquiv.v").write_text(GEN_HEADER + "".join(EQUIV[n] for n in order))
     for f in ("Gen.v", "GenEquiv.v"):
